@@ -21,7 +21,7 @@ import Lungo.Props.C12
 namespace Lungo.C13
 open Lungo Lungo.Ord
 
-/-! # list level -/
+/-! # ===== list level (begin) ===== -/
 
 /-! ### The comparison `order` (bsonkit.Order) is a total preorder -/
 
@@ -253,5 +253,9 @@ end tests
 
 example : (V.arr [.i32 5, .i64 1, .f64 0x4008000000000000]).i64Ok = true := by decide
 example : ∃ a b : V, V.cmp a b = .lt := ⟨.i32 1, .i32 2, by decide +kernel⟩
+
+/-! # ===== list level (end) ===== -/
+
+/-! # collection level: find / skip / limit windows — to be added here -/
 
 end Lungo.C13
